@@ -109,10 +109,15 @@ def run(ck, ctx):
     ck.rule("R04.10", _bounds.TEXT % "the connection handler (recognisers, collectors, stub-command dispatch) - shared with C15 R15.11")
     ck.nd("that each reply equals the stand-alone reply (C01/C03)")
     ck.nd("segmentation behaviour beyond 'NeedMoreData consumes nothing' (RespCodec's incomplete-input contract is C15)")
+    ck.rule("R04.11", "batched pipelines keep one reply per command in command order: every key of a pipelined batch is queued on every path "
+                      "and the positional reply vector is written only from the shard responses of the same position (shared with C02 R02.7)")
     for cfg in ctx.configs:
         prog = ctx.prog(cfg)
         ck.configs.append(cfg)
         ck.fn_count += len(prog.fns)
+        from . import c02 as _c02
+        from .core import Alias as _Alias
+        _c02._r027(_Alias(ck, "R02.7", "R04.11"), prog, cfg)
         _r041(ck, prog, cfg)
         _r042(ck, prog, cfg)
         _r043_044(ck, prog, cfg)
